@@ -298,6 +298,9 @@ func delayPlans(budget time.Duration) []delayPlan {
 		// parallel variants: the first ten hops answer inside the LAST poll interval before the listening deadline
 		// (delays are computed in the model from the run's own timeout and send delay); serial variants: ordinary
 		{"last-poll", func(i, n int) (time.Duration, []time.Duration) { return time.Duration(15+4*i) * ms, nil }},
+		// three malformed packets (time-exceeded quoting only 4 transport bytes) are queued just ahead of every reply:
+		// skipping them costs no time, the RTT is still arrival minus send
+		{"bad-ahead", func(i, n int) (time.Duration, []time.Duration) { return time.Duration(20+3*i) * ms, nil }},
 		// the reply leaves its own (serial) window and is read while a later probe is outstanding
 		{"window-crossing", func(i, n int) (time.Duration, []time.Duration) {
 			return budget + 250*ms + 150*ms + time.Duration(7*i)*ms, nil
@@ -410,6 +413,26 @@ func checkC05() fw.Check {
 															e.inject(gen.WrapError(routerAddr(v.V6, 2, p.TTL), e.local, gen.TimeExceeded, 0, gen.QuoteBytes(p, 1, "fix"), "min", nil, 0),
 																"late-router-same-ttl", p, oddUS(dd+333*time.Millisecond))
 														}
+													}
+												}
+											}
+											if dp.name == "bad-ahead" {
+												prev := m.extra
+												m.extra = func(e *simEnv, p *refmatch.Probe) {
+													if prev != nil {
+														prev(e, p)
+													}
+													q := gen.QuoteBytes(p, 1, "fix")
+													cut := 24
+													if v.V6 {
+														cut = 44
+													}
+													if len(q) > cut {
+														q = q[:cut]
+													}
+													d, _ := dp.f(p.TTL-w.first, n)
+													for k := 0; k < 3; k++ {
+														e.inject(gen.WrapError(routerAddr(v.V6, 3, p.TTL), e.local, gen.TimeExceeded, 0, q, "min", nil, 0), "noise:short-quote", p, oddUS(d-time.Duration(900-k*100)*time.Microsecond))
 													}
 												}
 											}
